@@ -22,6 +22,16 @@ def dispatch_branches(ctx, f: Func, p1: str, p2: str):
             g1 = ctx.res._guard_of_test(f, t.values[0], p1, True) or ctx.res._guard_of_test(f, t.values[1], p1, True)
             if g1 and g2 and len(g1) == 1 and len(g2) == 1:
                 out.append((next(iter(g1)), next(iter(g2)), n))
+        elif isinstance(t, ast.Compare) and len(t.ops) == 1 and isinstance(t.ops[0], ast.Eq) and isinstance(t.comparators[0], ast.Tuple) \
+                and len(t.comparators[0].elts) == 2:
+            # (type(p1), type(p2)) == (A, B), the pair possibly held in a local
+            from .astutil import deep_inline
+            left = deep_inline(f, t.left)
+            if isinstance(left, ast.Tuple) and len(left.elts) == 2 and [unparse(x) for x in left.elts] == ["type(%s)" % p1, "type(%s)" % p2]:
+                cls = [ctx.ix.resolve_expr(f.module, x, f) for x in t.comparators[0].elts]
+                from .index import Class as _Class
+                if all(isinstance(c, _Class) for c in cls):
+                    out.append((cls[0], cls[1], n))
     return out
 
 
